@@ -137,6 +137,39 @@ theorem nodup_eraseDups' : ∀ (n : Nat) (l : List Nat), l.length ≤ n → l.er
         have := List.length_filter_le (fun b => !b == a) as
         simp at hl; omega
 
+/-- **C01 (the statement's formula, verbatim).** The radicand is
+    Σ_i (∂_i σ_i)² + 2 Σ_{i<j} ∂_i ∂_j ρ_ij σ_i σ_j, the pairs i<j being the unordered pairs of
+    distinct sources. -/
+theorem C01_statement_form (env σ : Nat → ℝ) (ρ : Nat → Nat → ℝ) (e : Expr ℝ) (S : List Nat) :
+    resultSums env σ ρ e S
+      = (S.map fun i => (diff env i e * σ i) ^ 2).sum
+        + 2 * (pairTerms (fun i j => diff env i e * diff env j e * ρ i j * σ i * σ j) S).sum := by
+  unfold resultSums
+  simp only [Gen.combine]
+  rw [num_add, numSum_eq, numSum_eq]
+  congr 1
+  · unfold quadTerms
+    apply congrArg
+    apply List.map_congr_left
+    intro i _
+    simp only [Gen.quadTerm, num_pow, num_mul, num_ofNat]
+    rw [Nat.cast_ofNat, Real.rpow_two]; ring
+  · have hmul : ∀ (F : Nat → Nat → ℝ) (S : List Nat),
+        (pairTerms (fun i j => 2 * F i j) S).sum = 2 * (pairTerms F S).sum := by
+      intro F S
+      induction S with
+      | nil => simp [pairTerms]
+      | cons x xs ih =>
+        simp only [pairTerms, List.sum_append, ih]
+        have : (xs.map fun j => 2 * F x j).sum = 2 * (xs.map (F x)).sum := by
+          rw [List.sum_map_mul_left]
+        rw [this]; ring
+    rw [← hmul]
+    congr 1
+    have : covTerm env σ ρ e = fun i j => 2 * (diff env i e * diff env j e * ρ i j * σ i * σ j) := by
+      funext i j; rw [covTerm_eq]; ring
+    rw [this]
+
 /-- the list of sources the code iterates over has no duplicates -/
 theorem sources_nodup (e : Expr ℝ) : (sources e).Nodup := by
   cases e with
